@@ -78,6 +78,24 @@ def replay(o, scratch):
             im.close()
         print("PASSES")
         return 0
+    if kind == "query-modifies-store-after-cut":
+        from .extra import CUT_OBSERVERS
+        im = Impl(scratch)
+        try:
+            for l in lines:
+                im.exec(l)
+            k, j = o["cut"]
+            bad = False
+            if im.exec("cut %d %d" % (k, j))[0] == "ok":
+                for q in CUT_OBSERVERS + ["? counts", "? metrics"]:
+                    before = im.images(); ans, nw, _ = im.exec(q); after = im.images()
+                    if before != after or nw:
+                        print("FAILS:", q, "changed the stores (%d writes)" % nw); bad = True; break
+                im.exec("uncut")
+            print("FAILS" if bad else "PASSES")
+            return 1 if bad else 0
+        finally:
+            im.close()
     if kind == "cut":
         from .extra import CUT_OBSERVERS
         im = Impl(scratch)
